@@ -479,3 +479,6 @@ def run(ctx, rep):
     c01_choice.run(ctx, rep)
     from rules import c01_shape
     c01_shape.run(ctx, rep)
+    # "same initial values": the value of a duration literal is its digits times the unit, scaled exactly
+    from rules import c09_scale
+    c09_scale.run(ctx, rep, rid="R-C01-scale")
